@@ -28,6 +28,8 @@ pub enum Op {
     /// deliver the next outstanding block of that peer (correct data)
     Deliver(u16),
     DeliverAll(u16),
+    /// the answer to a request the client has cancelled meanwhile arrives anyway (it was in flight)
+    DeliverCancelled(u16),
     Disconnect(u16),
 }
 
@@ -52,6 +54,7 @@ fn strategy() -> BoxedStrategy<Case> {
         1 => any::<u16>().prop_map(Op::NotInterested),
         6 => any::<u16>().prop_map(Op::Deliver),
         3 => any::<u16>().prop_map(Op::DeliverAll),
+        2 => any::<u16>().prop_map(Op::DeliverCancelled),
         1 => any::<u16>().prop_map(Op::Disconnect),
     ];
     // scenario templates that reach deep states; random ops follow
@@ -61,6 +64,8 @@ fn strategy() -> BoxedStrategy<Case> {
         1 => Just(vec![Op::Join(5), Op::Join(5), Op::Unchoke(0), Op::ChokeKeep(0), Op::Unchoke(65535), Op::Unchoke(0)]),
         1 => Just(vec![Op::Join(5), Op::Join(7), Op::Unchoke(0), Op::ChokeKeep(0), Op::Unchoke(65535)]),
         1 => Just(vec![Op::Join(0), Op::Join(0), Op::Unchoke(0), Op::Unchoke(65535), Op::ChokeKeep(0), Op::Deliver(0)]),
+        // end game: two interested peers fetch the same pieces; one finishes first, the other's answer is already in flight
+        1 => Just(vec![Op::Join(0), Op::Join(0), Op::Interested(0), Op::Interested(65535), Op::Unchoke(0), Op::Unchoke(65535)]),
         // a peer in the middle of a download sends a second, empty bitfield and then announces pieces one by one
         1 => Just(vec![Op::Join(0), Op::Unchoke(0), Op::Bitfield(0, 1)]),
     ];
@@ -355,6 +360,16 @@ pub fn check(c: &Case) -> Outcome {
                             while net.answer(w, p, 0).is_some() {}
                         }
                     }
+                    Op::DeliverCancelled(p) => {
+                        let with_c: Vec<usize> = live.iter().copied().filter(|p| !net.peers[*p].view.cancelled_pending.is_empty()).collect();
+                        if !with_c.is_empty() {
+                            let p = with_c[idx(*p, with_c.len())];
+                            let (i, b, l) = net.peers[p].view.cancelled_pending.pop_front().unwrap();
+                            let data = net.t.piece(i as usize)[b as usize..(b + l) as usize].to_vec();
+                            w.send_frame(net.peers[p].conn, &crate::refmodel::wire::RFrame::Piece(i, b, data));
+                            classes.push("late-block-after-cancel");
+                        }
+                    }
                     Op::Disconnect(p) => {
                         if let Some(p) = pick(*p) {
                             let assigned = w.snapshot().peers.iter().any(|ps| ps.addr == net.peers[p].addr && ps.piece_index.is_some());
@@ -428,7 +443,7 @@ pub fn def() -> PropDef {
             cases: |t| t.pick(12_000, 200_000),
             run: |ctx| run_proptest(ctx, "histories", strategy(), check),
             replay: |v| replay_case::<Case>(v, check),
-            min_class: &[(">=2-peers", 0.4196), ("choke-while-assigned", 0.2), ("disconnect-while-assigned", 0.1), (">=10-missing-with-2-peers", 0.15), ("redundant-unchoke", 0.2), ("redundant-choke", 0.1), ("block-delivered-while-choking", 0.02), ("repeated-bitfield", 0.1)],
+            min_class: &[(">=2-peers", 0.4196), ("choke-while-assigned", 0.2), ("disconnect-while-assigned", 0.1), (">=10-missing-with-2-peers", 0.15), ("redundant-unchoke", 0.2), ("redundant-choke", 0.1), ("block-delivered-while-choking", 0.02), ("repeated-bitfield", 0.1), ("late-block-after-cancel", 0.01)],
         }],
     }
 }
